@@ -229,7 +229,7 @@ func gen(r *common.Rng, tier string, w *bufio.Writer) {
 	if tier == "thorough" {
 		n = 2600
 	}
-	kinds := []string{"plain", "plain", "border", "cold", "ffc", "ffcpair", "resetpair", "dyn", "dyn", "ffcobj", "dynsat", "swing"}
+	kinds := []string{"plain", "plain", "border", "cold", "ffc", "ffcpair", "resetpair", "dyn", "dyn", "ffcobj", "dynsat", "swing", "resetobj", "ffclevel"}
 	for id := 0; id < n; id++ {
 		kind := kinds[r.Intn(len(kinds))]
 		c := randCfg(r, id == 7)
@@ -265,6 +265,94 @@ func gen(r *common.Rng, tier string, w *bufio.Writer) {
 			c.tmin, c.tmax = r.Pick(0, 3000), r.Pick(0, 31000)
 			fmt.Fprintln(w, c.header(id, kind))
 			genSaturated(r, c, w)
+			continue
+		}
+		if kind == "resetobj" {
+			// two-comparison mode, no FFC: something flickers right up to a camera reset; after the reset the scene is
+			// still for one frame, then the object is back at the same place (the comparison of the frame before the
+			// reset must not count as "the previous frame's comparison")
+			c.dyn, c.one = 0, 0
+			if c.thresh == 0 {
+				c.thresh = 1000
+			}
+			fmt.Fprintln(w, c.header(id, kind))
+			base := c.thresh + r.Pick(50, 300, 2000)
+			amp := c.delta + r.Pick(1, 30, 400)
+			y, x := c.h/2, c.w/2
+			ton := int64(r.Range(20, 200)) * sec
+			frameWith := func(on bool) frame {
+				f := newFrame(c, base)
+				if on {
+					for k := 0; k < c.count+1; k++ {
+						xx := x + k
+						if xx >= c.w-c.edge {
+							xx = x - k
+						}
+						if xx >= 0 && xx < c.w {
+							f[y][xx] += amp
+						}
+					}
+				}
+				return f
+			}
+			for i := 0; i < c.gap+r.Range(3, 6); i++ {
+				fmt.Fprintf(w, "d %d %d %s\n", ton, 0, frameWith(i%2 == 0).hex())
+				ton += sec / 9
+			}
+			fmt.Fprintln(w, "r")
+			for i := 0; i < r.Range(1, 2); i++ {
+				fmt.Fprintf(w, "d %d %d %s\n", ton, 0, frameWith(false).hex())
+				ton += sec / 9
+			}
+			for i := 0; i < r.Range(2, 5); i++ {
+				fmt.Fprintf(w, "d %d %d %s\n", ton, 0, frameWith(i%3 != 2).hex())
+				ton += sec / 9
+			}
+			continue
+		}
+		if kind == "ffclevel" {
+			// dynamic threshold: two histories at different scene levels (so with different learnt thresholds) before a
+			// short FFC period, identical from the period on, where something warm flickers at a level between the two
+			// thresholds: the verdicts must agree (the threshold after the period is learnt from the frames after it)
+			c.dyn, c.tmin, c.tmax, c.preview = 1, 0, 0, r.Pick(1, 2, 3)
+			if c.delta > 200 {
+				c.delta = 50
+			}
+			fmt.Fprintln(w, c.header(id, kind))
+			lvlA, lvlB := 3100, 3600
+			if r.Chance(50) {
+				lvlA, lvlB = lvlB, lvlA
+			}
+			ton := int64(r.Range(20, 200)) * sec
+			y, x := c.h/2, c.w/2
+			for i := 0; i < c.preview+r.Range(2, 5); i++ {
+				fmt.Fprintf(w, "e %d %d %s\n", ton, 0, newFrame(c, lvlB).hex())
+				fmt.Fprintf(w, "d %d %d %s\n", ton, 0, newFrame(c, lvlA).hex())
+				ton += sec / 9
+			}
+			ffc := ton
+			for i := 0; i < r.Pick(1, 2, 3); i++ {
+				fmt.Fprintf(w, "d %d %d %s\n", ton, ffc, newFrame(c, 3100).hex())
+				ton += sec / 9
+			}
+			ton = ffc + 10*sec + int64(r.Pick(0, 1, int(sec)))
+			fmt.Fprintln(w, "x C09 1")
+			for i := 0; i < c.preview+r.Range(3, 7); i++ {
+				f := newFrame(c, 3100)
+				if i%2 == 1 {
+					for k := 0; k < c.count+1; k++ {
+						xx := x + k
+						if xx >= c.w-c.edge {
+							xx = x - k
+						}
+						if xx >= 0 && xx < c.w {
+							f[y][xx] = 3100 + c.delta + 150
+						}
+					}
+				}
+				fmt.Fprintf(w, "d %d %d %s\n", ton, ffc, f.hex())
+				ton += sec / 9
+			}
 			continue
 		}
 		if kind == "swing" {
